@@ -1244,8 +1244,8 @@ Qed.
 Definition enum_plain (t : ty) : Prop :=
   match t with TEnum items => all_valued items \/ none_valued items | _ => True end.
 
-(* reference chains are no longer than the number of definitions (true of every
-   module by the pigeonhole principle; kept as a hypothesis here) *)
+(* reference chains are no longer than the number of definitions: discharged
+   for every module by [chains_are_short] below *)
 Definition chains_short : Prop :=
   forall r, resolves m r -> terminal m (term_fuel m) (TRef r) <> None.
 
@@ -1308,3 +1308,79 @@ Proof.
   - auto.
 Qed.
 End Complete.
+
+(* ================================================================ reference chains are short *)
+(* a chain of references that ends visits pairwise different definitions (the
+   chain is determined by its first name), so it has at most as many hops as
+   there are definitions: asn1f_find_terminal_type's loop detection and the
+   model's fuel agree with "resolves" *)
+Section Pigeon.
+Variable m : module.
+
+Inductive hops : nat -> nat -> Prop :=
+| H0 : forall r d, lookup m r = Some d -> ~ is_reference (d_ty d) -> hops r 0
+| HS : forall r d r' k, lookup m r = Some d -> d_ty d = TRef r' -> hops r' k -> hops r (S k).
+
+Lemma resolves_hops : forall r, resolves m r -> exists k, hops r k.
+Proof.
+  intros r H. induction H as [r d L N | r d r' L T _ [k IH]].
+  - exists 0%nat. eapply H0; eassumption.
+  - exists (S k). eapply HS; eassumption.
+Qed.
+
+Lemma hops_det : forall r k, hops r k -> forall k', hops r k' -> k = k'.
+Proof.
+  intros r k H. induction H as [r d L N | r d r' k L T H IH]; intros k' H'.
+  - inversion H' as [|? d' r'' ? L' T' ?]; subst; [reflexivity|].
+    rewrite L in L'. inversion L'; subst. rewrite T' in N. simpl in N. tauto.
+  - inversion H' as [? d' L' N'|? d' r'' k'' L' T' H'']; subst.
+    + rewrite L in L'. inversion L'; subst. rewrite T in N'. simpl in N'. tauto.
+    + rewrite L in L'. inversion L'; subst. rewrite T in T'. inversion T'; subst.
+      f_equal. apply IH. exact H''.
+Qed.
+
+Lemma lookup_name_In : forall r d, lookup m r = Some d -> In r (map d_name (m_defs m)).
+Proof.
+  intros r d L. unfold lookup in L. apply find_some in L. destruct L as [Hin E].
+  apply Nat.eqb_eq in E. subst r. apply in_map. exact Hin.
+Qed.
+
+Lemma hops_names : forall r k, hops r k ->
+  exists names, length names = S k /\ NoDup names /\ incl names (map d_name (m_defs m)) /\
+                forall n, In n names -> exists j, (j <= k)%nat /\ hops n j.
+Proof.
+  intros r k H. induction H as [r d L N | r d r' k L T H [names [Hl [Hnd [Hinc Hj]]]]].
+  - exists [r]. split; [reflexivity|]. split; [repeat constructor; simpl; tauto|]. split.
+    + intros n [E|[]]. subst. eapply lookup_name_In; eassumption.
+    + intros n [E|[]]. subst. exists 0%nat. split; [lia|]. eapply H0; eassumption.
+  - exists (r :: names). split; [simpl; rewrite Hl; reflexivity|]. split; [|split].
+    + constructor; [|exact Hnd]. intro Hin. destruct (Hj r Hin) as [j [Hle Hr]].
+      assert (E : j = S k) by (eapply hops_det; [exact Hr | eapply HS; eassumption]). lia.
+    + intros n [E|Hin]; [subst; eapply lookup_name_In; eassumption | apply Hinc; exact Hin].
+    + intros n [E|Hin].
+      * subst. exists (S k). split; [lia|]. eapply HS; eassumption.
+      * destruct (Hj n Hin) as [j [Hle Hn]]. exists j. split; [lia | exact Hn].
+Qed.
+
+Lemma hops_terminal : forall r k, hops r k -> forall fuel, (k < fuel)%nat -> terminal m fuel (TRef r) <> None.
+Proof.
+  intros r k H. induction H as [r d L N | r d r' k L T H IH]; intros fuel Hf.
+  - destruct fuel as [|f]; [lia|]. simpl. rewrite L. rewrite (terminal_nonref m f _ N). discriminate.
+  - destruct fuel as [|f]; [lia|]. simpl. rewrite L. rewrite T. apply IH. lia.
+Qed.
+
+Lemma chains_are_short : chains_short m.
+Proof.
+  intros r H. apply resolves_hops in H. destruct H as [k H].
+  destruct (hops_names r k H) as [names [Hl [Hnd [Hinc _]]]].
+  pose proof (NoDup_incl_length Hnd Hinc) as Hlen. rewrite map_length in Hlen.
+  eapply hops_terminal; [exact H|]. unfold term_fuel. lia.
+Qed.
+End Pigeon.
+
+Theorem distinct_complete_partial' : forall m,
+  tagging_wf m -> distinct_spec m -> enums_plain m ->
+  check m = Accept \/ check m = Crashes.
+Proof.
+  intros m H1 H2 H3. apply distinct_complete_partial; auto. apply chains_are_short.
+Qed.
